@@ -149,6 +149,8 @@ type FrontOpts struct {
 }
 
 type ClientMeta struct {
+	Kind     string
+	Script   *H2Script
 	Proto    string // offered: h2 / h1 / none
 	Reqs     []ReqSpec
 	Preamble H2Preamble
